@@ -517,6 +517,10 @@ class SVGPath(SVGShape, SVGCommandSeq):
         def subpaths_callback(subpath_start, curr_pos, cmd, args, *_unused):
             if cmd.upper() == "M":
                 subpaths.append(SVGPath())
+            elif not subpaths[-1].d and cmd.upper() != "Z":
+                # drawing resumes after a closepath: the new subpath starts at the
+                # current point; say so, each subpath must stand on its own
+                subpaths[-1]._add_cmd("M", *curr_pos)
             subpaths[-1]._add_cmd(cmd, *args)
             if cmd.upper() == "Z":
                 subpaths.append(SVGPath())
